@@ -23,13 +23,13 @@ import (
 	"os"
 	"os/exec"
 	"os/signal"
-	"syscall"
 	"path/filepath"
 	"regexp"
 	"sort"
 	"strconv"
 	"strings"
 	"sync"
+	"syscall"
 	"time"
 )
 
@@ -686,29 +686,29 @@ func main() {
 	}
 	rule := sp.Rule
 	cov := map[string]any{
-		"evaluations":             m.Runs,
-		"distinct_nontrivial":     len(m.sigs),
-		"rule":                    rule,
-		"samples":                 m.Samples,
-		"nontrivial_runs":         m.Nontrivial,
-		"distinct_interleavings":  len(m.ssigs),
-		"distinct_abstract_states": len(m.states),
-		"abstract_states_sample":  firstN(keys(m.states), 12),
-		"scheduling_steps":        m.Steps,
-		"context_switches":        m.Switches,
-		"tasks_created":           m.Tasks,
-		"simulated_time_s":        float64(m.SimTimeMs) / 1000,
-		"faults_fired":            m.Faults,
-		"probes":                  m.Probes,
-		"inconclusive_runs":       m.Inconclusive,
-		"runs_per_hour":           int(float64(m.Runs) / wall * 3600),
-		"seeds":                   fmt.Sprintf("VERIF_SEED=%d, run seeds mix(seed, i) for i in [0,%d)", int64(seed), total),
-		"enumerated_cases":        enumRuns,
-		"exhaustive":              false,
+		"evaluations":                m.Runs,
+		"distinct_nontrivial":        len(m.sigs),
+		"rule":                       rule,
+		"samples":                    m.Samples,
+		"nontrivial_runs":            m.Nontrivial,
+		"distinct_interleavings":     len(m.ssigs),
+		"distinct_abstract_states":   len(m.states),
+		"abstract_states_sample":     firstN(keys(m.states), 12),
+		"scheduling_steps":           m.Steps,
+		"context_switches":           m.Switches,
+		"tasks_created":              m.Tasks,
+		"simulated_time_s":           float64(m.SimTimeMs) / 1000,
+		"faults_fired":               m.Faults,
+		"probes":                     m.Probes,
+		"inconclusive_runs":          m.Inconclusive,
+		"runs_per_hour":              int(float64(m.Runs) / wall * 3600),
+		"seeds":                      fmt.Sprintf("VERIF_SEED=%d, run seeds mix(seed, i) for i in [0,%d)", int64(seed), total),
+		"enumerated_cases":           enumRuns,
+		"exhaustive":                 false,
 		"reexecuted_for_determinism": m.Rechecked,
-		"components_real":         sp.Real,
-		"components_stub":         sp.Stub,
-		"workers":                 *workers,
+		"components_real":            sp.Real,
+		"components_stub":            sp.Stub,
+		"workers":                    *workers,
 	}
 	if enum && m.Exhausted && total == 0 {
 		cov["exhaustive"] = true
